@@ -36,6 +36,9 @@ type World struct {
 	Names   *simkit.Namer
 	Pubs    []*PubNode
 	treeSeq int
+	// TrustedStore: subscribers made from here on mark their link system's
+	// storage as trusted.
+	TrustedStore bool
 }
 
 func NewWorld(r *simkit.Run) *World {
@@ -297,6 +300,11 @@ type SubNode struct {
 	hooks []HookCall
 	// FailAt makes the hook signal failure for this CID (FailSync).
 	FailAt map[cid.Cid]error
+	// OnHook runs once, inside the hook call for this CID, before the call
+	// is recorded (a hook that cancels the sync's context, for instance).
+	OnHook map[cid.Cid]func()
+	// OnAnyHook runs inside every hook call, after the call is recorded.
+	OnAnyHook func(HookCall)
 	// ParkHooks makes every hook call a park point.
 	ParkHooks bool
 	// QuietEnd makes the hook say nothing about the next CID for a block
@@ -314,6 +322,10 @@ func (w *World) NewSubscriber(opts ...dagsync.Option) *SubNode {
 func (w *World) NewSubscriberOn(h host.Host, opts ...dagsync.Option) *SubNode {
 	st := simkit.NewStore(w.R, "sub.store")
 	s := &SubNode{W: w, Store: st, LS: st.LinkSystem(), FailAt: map[cid.Cid]error{}}
+	// an application that trusts its own store (what it reads back from it
+	// is not hashed again): what comes from a publisher is checked all the
+	// same
+	s.LS.TrustedStorage = w.TrustedStore
 	all := append([]dagsync.Option{dagsync.BlockHook(s.blockHook)}, opts...)
 	s.Sub = must(dagsync.NewSubscriber(h, s.LS, all...))
 	return s
@@ -337,7 +349,16 @@ func (s *SubNode) hookTagged(p peer.ID, c cid.Cid, act dagsync.SegmentSyncAction
 	}
 	s.mu.Lock()
 	s.hooks = append(s.hooks, HookCall{Peer: pn, Cid: c, Name: name, Step: s.W.R.Step(), GID: simkit.CurGID(), Tag: tag})
+	f := s.OnHook[c]
+	delete(s.OnHook, c)
+	call := s.hooks[len(s.hooks)-1]
 	s.mu.Unlock()
+	if f != nil {
+		f()
+	}
+	if s.OnAnyHook != nil {
+		s.OnAnyHook(call)
+	}
 	s.W.R.Logf("hook."+pn, "block %s", name)
 	if err, ok := s.FailAt[c]; ok {
 		act.FailSync(err)
